@@ -785,4 +785,73 @@ Proof.
     rewrite Hh, Hk, Hx, Hal. simpl. auto.
 Qed.
 
+(* ------------------------------------------------------------------ the decision table *)
+Notation decision := (decision re_match re_ok).
+
+Lemma check_auth_decides : forall cfg now k o t ch,
+  snd (check_auth cfg now k o t ch) = decision cfg now k o t ch.
+Proof.
+  intros. unfold Gate.check_auth, Gate.decision, Gate.in_force.
+  destruct (auth_enabled cfg); simpl; auto.
+  destruct (has_authorizations k) eqn:Eh; simpl; auto.
+  destruct (k_auth k) as [a|] eqn:Ek.
+  - destruct (is_expired a now).
+    + destruct (query_any (c_authd cfg) now o) as [[r o'] q]. destruct r; reflexivity.
+    + reflexivity.
+  - unfold has_authorizations in Eh. rewrite Ek in Eh. discriminate.
+Qed.
+
+Lemma filter_queries : forall k q, filter is_world (queries k q) = [].
+Proof. intros. unfold queries. induction q; simpl; auto. Qed.
+
+Lemma ca_filter : forall cfg now k o t ch k1 o1 fx v,
+  ca_spec cfg now k o t ch (k1, o1, fx, v) -> filter is_world fx = [].
+Proof. intros * H. inversion H; subst; auto using filter_queries. Qed.
+
+Lemma filter_app_nil : forall (fx tail : list effect),
+  filter is_world fx = [] -> filter is_world (fx ++ tail) = filter is_world tail.
+Proof. intros. rewrite filter_app, H. reflexivity. Qed.
+
+(* a PUB/MPUB/DPUB/SUB that is past the TLS gate and past its own syntactic checks is decided
+   by [decision] alone: the documented fatal error and nothing else, or its normal answer
+   and exactly its normal effects *)
+Theorem demand_decided : forall cfg now k o c t ch,
+  gate_blocks cfg k = false -> presyntax_ok k c = true -> demand c = Some (t, ch) ->
+  match decision cfg now k o t ch with
+  | Some e => r_resps (exec cfg now k o c) = [RErr e true] /\ filter is_world (r_fx (exec cfg now k o c)) = []
+  | None => r_resps (exec cfg now k o c) = granted_resps c /\
+            filter is_world (r_fx (exec cfg now k o c)) = granted_world c
+  end.
+Proof.
+  intros cfg now k o c t ch Hg Hs Hd.
+  rewrite <- check_auth_decides.
+  destruct c; simpl in Hd; try discriminate; simpl; rewrite Hg.
+  - (* SUB *)
+    destruct args as [|t' [|ch' rest]]; try discriminate. inversion Hd; subst t' ch'. clear Hd.
+    simpl in Hs. apply andb_true_iff in Hs. destruct Hs as [Hs Hv2].
+    apply andb_true_iff in Hs. destruct Hs as [Hs Hv1].
+    apply andb_true_iff in Hs. destruct Hs as [Hst Hhb].
+    unfold do_sub. rewrite Hst. apply negb_true_iff in Hhb. rewrite Hhb, Hv1, Hv2. simpl.
+    ca_cases cfg now k o t ch; simpl; apply ca_filter in Hca; auto.
+    split; auto. rewrite filter_app_nil by auto. reflexivity.
+  - (* PUB *)
+    destruct args as [|t' rest]; try discriminate. inversion Hd; subst t' ch. clear Hd.
+    simpl in Hs. destruct body_ok; try discriminate.
+    unfold do_pub. rewrite Hs. simpl.
+    ca_cases cfg now k o t (@nil N); simpl; apply ca_filter in Hca; auto.
+    split; auto. rewrite filter_app_nil by auto. reflexivity.
+  - (* MPUB *)
+    destruct args as [|t' rest]; try discriminate. inversion Hd; subst t' ch. clear Hd.
+    simpl in Hs.
+    unfold do_mpub. rewrite Hs. simpl.
+    ca_cases cfg now k o t (@nil N); simpl; apply ca_filter in Hca; auto.
+    destruct body; simpl; (split; auto); rewrite filter_app_nil by auto; reflexivity.
+  - (* DPUB *)
+    destruct args as [|t' [|d rest]]; try discriminate. inversion Hd; subst t' ch. clear Hd.
+    simpl in Hs. destruct delay_ok; try discriminate. destruct body_ok; try discriminate.
+    unfold do_dpub. rewrite Hs. simpl.
+    ca_cases cfg now k o t (@nil N); simpl; apply ca_filter in Hca; auto.
+    split; auto. rewrite filter_app_nil by auto. reflexivity.
+Qed.
+
 End GateProofs.
